@@ -6,3 +6,5 @@ import ThunderProofs.Properties.C08
 #print axioms TM.Properties.C08.quiescent_cleanup_exactly_once
 #print axioms TM.Properties.C08.quiescent_edges_live
 #print axioms TM.Properties.C08.ex_released
+#print axioms TM.Properties.C08.cleanup_decided_only_when_unused
+#print axioms TM.Properties.C08.rerunner_never_releases_used_node
